@@ -172,8 +172,12 @@ def c20_corr(res, exe, driver, tier, seed, tmp):
                 res.oracle_failures.append({"stream": "sqlhist", "case": line, "impl": o,
                                             "why": "walk: newest-to-oldest %s / oldest-to-newest %s, entered (after limits and re-entries) %s" % (
                                                 [enc(x) for x in d], [enc(x) for x in u], [enc(x) for x in want])})
+    stats["sqlwalk"] = sqlwalk_corr(res, exe, tier, seed, tmp)
     res.distribution.update({"oracle": stats, "sequences": len(cases)})
-    res.rule = ("sqlhist: sequences of 3-40 operations on a fresh database file -- add (entries with blanks, duplicates, multi-byte, the "
+    res.rule = ("sqlwalk: an Editor over an SQLiteHistory on a pty -- lines entered by an earlier session (database closed and "
+                "reopened) and by the current one (re-entered lines leave holes in the row ids), then random Up / Down / C-p / C-n walks: "
+                "the line shown before every key and the line returned must follow the list of held lines (oracle only, no model). "
+                "sqlhist: sequences of 3-40 operations on a fresh database file -- add (entries with blanks, duplicates, multi-byte, the "
                 "empty line), get in both directions at every index, len, set_max_len, close + reopen with the same settings -- with size "
                 "limits 0-100 and both ignore options; the extracted model (rows in rowid order, cached maximal rowid, session, INSERT OR "
                 "REPLACE under the unique index) is compared with the implementation on every answer. At the end the history is walked "
@@ -193,3 +197,84 @@ def c20_corr(res, exe, driver, tier, seed, tmp):
             res.known_confirmed.append(("K4", "the search is SQLite full-text (token) search: texts that are not one alphanumeric word give errors or "
                                         "false matches ('\"', '-l', '(', 'ls!!' on [ls -l, a\"b,  a] answered %s) and a prefix search for 'a' returns "
                                         "the entry ' a' (%s)" % (w[3:7], lead)))
+
+
+# ---------------------------------------------------------------- sqlwalk: the editor's history navigation over SQLite
+
+def sqlwalk_cases(tier, seed):
+    """an Editor whose history is an SQLiteHistory: an earlier session entered some lines (the database was closed and
+    reopened), this session entered more (re-entering a line leaves a hole in the row ids); then Up / Down walks"""
+    import os
+    from p_tty import Case
+    rng = random.Random(seed * 2311 + 5)
+    n = 1200 if tier == "thorough" else 120
+    pool = ["ls", "pwd", "cd src", "make", "git st", "é", "x", "ls -l", "echo a"]
+    cases = []
+    for k in range(n):
+        s1 = [rng.choice(pool) for _ in range(rng.randint(0, 7))]
+        s2 = [rng.choice(pool) for _ in range(rng.randint(0, 7))]
+        keys = [rng.choice(["Up", "Up", "Down", "C-p", "C-n"]) for _ in range(rng.randint(3, 30))]
+        if rng.random() < 0.4:
+            keys = ["Up"] * rng.randint(1, 14) + ["Down"] * rng.randint(1, 16)
+        keys.append("Enter")
+        path = "/tmp/rlsqlwalk-%d-%d-%d.sqlite3" % (os.getpid(), seed, k)
+        extra = ["sqlite " + path] + ["history " + enc([ord(c) for c in e]) for e in s1] + ["history2 " + enc([ord(c) for c in e]) for e in s2]
+        c = Case(keys, mode="emacs", prompt="> ", timeout=0, meta={"spec_extra": extra, "s1": s1, "s2": s2, "sync_keys": 1})
+        cases.append(c)
+    return cases
+
+
+def sqlwalk_ref(s1, s2):
+    """the lines the history holds, oldest first (ignore_dups: a line re-entered in the SAME session counts once, as its
+    newest occurrence; consecutive duplicates are refused)"""
+    ref = []
+    for sess, lines in ((1, s1), (2, s2)):
+        for e in lines:
+            if ref and ref[-1][1] == e:
+                continue
+            ref = [(s, x) for (s, x) in ref if not (s == sess and x == e)]
+            ref.append((sess, e))
+    return [x for (_, x) in ref]
+
+
+def sqlwalk_corr(res, exe, tier, seed, tmp):
+    from p_tty import run_tty_cases
+    cases = sqlwalk_cases(tier, seed)
+    out = run_tty_cases(res, exe, None, cases, tmp, "sqlwalk", compare_output=False)
+    stats = {"walks": 0, "steps": 0, "with_holes": 0}
+    for (c, impl, model, raw) in out:
+        ref = sqlwalk_ref(c.meta["s1"], c.meta["s2"])
+        if len(ref) < len([e for e in c.meta["s1"] + c.meta["s2"]]):
+            stats["with_holes"] += 1
+        obs = [l for l in raw["obs"] if l.startswith("K ")]
+        rl = [l for l in raw["obs"] if l.startswith("R ")]
+        stats["walks"] += 1
+        idx, shown = len(ref), ""
+        ok = True
+        for i, k in enumerate(c.keys):
+            if i >= len(obs):
+                res.oracle_failures.append({"stream": "sqlwalk", "case": c.spec(), "keys": c.keys,
+                                            "why": "walk: only %d of %d keys observed (%s)" % (len(obs), len(c.keys), rl[:1])})
+                ok = False
+                break
+            got = "".join(chr(x) for x in dec(obs[i].split()[1]))
+            if got != shown:
+                res.oracle_failures.append({"stream": "sqlwalk", "case": c.spec(), "keys": c.keys,
+                                            "why": "walk: before key %d (%s) the line shows %r; walking the history %r from its end it should show %r" % (
+                                                i, k, got, ref, shown)})
+                ok = False
+                break
+            stats["steps"] += 1
+            if k in ("Up", "C-p"):
+                if idx > 0:
+                    idx -= 1
+                    shown = ref[idx]
+            elif k in ("Down", "C-n"):
+                if idx < len(ref):
+                    idx += 1
+                    shown = ref[idx] if idx < len(ref) else ""
+        if ok and rl and rl[0] != "R line:" + enc([ord(ch) for ch in shown]):
+            res.oracle_failures.append({"stream": "sqlwalk", "case": c.spec(), "keys": c.keys,
+                                        "why": "walk: the read returned %s, the line reached is %r" % (rl[0], shown)})
+        res.nontrivial.add(c.spec())
+    return stats
